@@ -26,8 +26,8 @@ WINDOWED = ["SelectHasData", "SelectMomentum", "SetStat", "WeighInvVol", "WeighE
 
 def plan(tier):
     q = tier == "quick"
-    return [dict(unit="w2", n=210 if q else 2500, builds=["py"] if q else ["py", "so"], case_timeout=300, params={"cuts": 3 if q else 6}),
-            dict(unit="w5", n=120 if q else 2500, builds=["py"] if q else ["py", "so"], case_timeout=300, params={"cuts": 3 if q else 6})]
+    return [dict(unit="w2", n=210 if q else 800, builds=["py"] if q else ["py", "so"], case_timeout=300, params={"cuts": 3 if q else 6}),
+            dict(unit="w5", n=120 if q else 800, builds=["py"] if q else ["py", "so"], case_timeout=300, params={"cuts": 3 if q else 6})]
 
 
 def floors(tier):
